@@ -237,6 +237,8 @@ class Runner:
                 p.sendClose(code, reason)
             elif op == "hs":
                 self.handshake(ep)
+            elif op == "hsx":
+                self.handshake(ep, extra=hx(a[1]), cut=int(a[2]))
             else:
                 raise ValueError("unknown op " + tok)
         except Disconnected:
@@ -250,7 +252,7 @@ class Runner:
             ep.last_exc = repr(ex)
         env.pump()
 
-    def handshake(self, ep):
+    def handshake(self, ep, extra=b"", cut=None):
         """complete the opening handshake of an endpoint created with start == connecting"""
         env = self.env
         p = ep.proto
@@ -260,16 +262,27 @@ class Runner:
         if ep.role == "server":
             req = ("GET / HTTP/1.1\r\nHost: localhost:9000\r\nUpgrade: websocket\r\nConnection: Upgrade\r\n"
                    "Sec-WebSocket-Key: %s\r\nSec-WebSocket-Version: 13\r\n\r\n" % ws.KEY)
-            ws.deliver(env, ep, req.encode())
+            hs = req.encode()
         else:
             sent = ep.transport.written().decode("latin-1")
             key = [l.split(":", 1)[1].strip() for l in sent.split("\r\n") if l.lower().startswith("sec-websocket-key:")][0]
             resp = ("HTTP/1.1 101 Switching Protocols\r\nUpgrade: websocket\r\nConnection: Upgrade\r\n"
                     "Sec-WebSocket-Accept: %s\r\n\r\n" % ws.accept_for(key))
-            ws.deliver(env, ep, resp.encode())
-        # the handshake's own writes / onConnect / onOpen are not observables of the post-handshake model
-        ep.events[n0:] = [e for e in ep.events[n0:] if e[0] not in ("write", "onConnect", "onOpen")]
+            hs = resp.encode()
+        data = hs + extra
         self.pe["st"]["ctr"] = 0
+        if cut is None:
+            ws.deliver(env, ep, data)
+        else:
+            # cut is relative to the END of the handshake: negative = inside the handshake, positive = inside extra
+            c = max(0, min(len(data), len(hs) + cut))
+            ws.deliver(env, ep, data[:c])
+            ws.deliver(env, ep, data[c:])
+        # the handshake's own writes / onConnect / onOpen are not observables of the post-handshake model
+        new = ep.events[n0:]
+        io = next((i for i, e in enumerate(new) if e[0] == "onOpen"), len(new))
+        ep.events[n0:] = [e for e in new[:io] if e[0] not in ("write", "onConnect")] + \
+                         [e for e in new[io:] if e[0] not in ("onOpen", "onConnect")]
 
     def state_letter(self, p):
         return {p.STATE_CONNECTING: "C", p.STATE_OPEN: "O", p.STATE_CLOSING: "G", p.STATE_CLOSED: "X"}.get(p.state, "?")
